@@ -65,12 +65,24 @@ pub fn chain_has_fault(e: &(dyn std::error::Error + 'static), id: u32) -> bool {
                 }
             }
         }
+        if let Some(arc) = e.downcast_ref::<Arc<io::Error>>() {
+            if go(arc.as_ref(), id, depth + 1) {
+                return true;
+            }
+        }
         match e.source() {
             Some(s) => go(s, id, depth + 1),
             None => false,
         }
     }
     go(e, id, 0)
+}
+
+/// Weakest acceptable evidence that an error carries the injected fault: its Debug rendering
+/// shows the payload (used where a dependency keeps the io::Error behind an `Arc` or an enum
+/// that `source()` does not traverse).
+pub fn debug_shows_fault(e: &(dyn std::error::Error + 'static), id: u32) -> bool {
+    format!("{e:?}").contains(&format!("SimFault {{ id: {id} }}"))
 }
 
 // ---------------------------------------------------------------------------------------------
